@@ -5,13 +5,14 @@
 (* the operators of Phase3Def.tla (the same ones the model Phase3.tla uses); Python only logs numbers.               *)
 (*                                                                                                                   *)
 (* Case record (all numbers micro-units = round(x * 10^6): micro-p.u., micro-degree, W / var; NaN = Fix!NaN):         *)
-(*   cfg           [vg, topo, elems]                                                                                 *)
-(*   unitp, unitq  micro-MW / micro-Mvar of one level unit at bus b (even integers; harness table, jittered)         *)
+(*   cfg           [vg, topo, cpl, egs, elems]                                                                       *)
+(*   unitp, unitq  micro-MW / micro-Mvar of one level unit at bus b (even integers; harness table by voltage level,  *)
+(*                 jittered); one entry per existing bus (4, or 5 with a busbar section)                             *)
 (*   out3, out1    "ok" | "notconv" | "notimpl" | "error"   outcome of runpp_3ph / runpp                             *)
 (*   r3.bus[b]     [vm, va, p, q : <<a, b, c>>]             res_bus_3ph                                              *)
 (*   r3.line[l]    [f, t : [p, q : <<a, b, c>>]]            res_line_3ph   p_a_from_mw ... q_c_to_mvar               *)
 (*   r3.trafo[k]   [hv, lv : [p, q : <<a, b, c>>]]          res_trafo_3ph  (0 or 1 rows)                             *)
-(*   r3.eg         [p, q : <<a, b, c>>]                     res_ext_grid_3ph                                         *)
+(*   r3.eg[k]      [p, q : <<a, b, c>>]                     res_ext_grid_3ph, one entry per ext_grid ROW (table order)*)
 (*   r3.elem[i]    [p, q : <<a, b, c>>, pt, qt]             res_asymmetric_*_3ph (p, q) / res_load_3ph, res_sgen_3ph *)
 (*                                                          (pt, qt = p_mw, q_mvar: these tables have no phase cols) *)
 (*   r1            the same shapes without the phase dimension, from res_bus, res_line, res_trafo, res_ext_grid,     *)
@@ -27,7 +28,11 @@
 (* slowly; evidence key max_per_phase_nodal_residual_mw_non_slack), balanced cases agree with runpp to 1e-11.  The     *)
 (* smallest power of any                                                                                              *)
 (* element phase in the generated networks is 420 micro-Mvar, so a dropped / doubled / mis-signed contribution is far  *)
-(* outside every tolerance.                                                                                           *)
+(* outside every tolerance.  With several ext_grids the harness gives row k the set point vm = 1.02 - 0.0003 k p.u.,   *)
+(* va = 0.004 k degree, so that every ext_grid carries a different power (>= 10000 micro-MW apart): rows exchanged or   *)
+(* booked at the wrong bus are far outside every tolerance as well.                                                   *)
+(* Fused buses (closed bus-bus switch): the nodal balance is a statement about the NODE (all elements, branch          *)
+(* terminals and ext_grids of all its buses); res_bus_3ph p/q stay per pandapower bus (its own elements).             *)
 EXTENDS Phase3Def, Fix, Json, IOUtils
 VARIABLE i
 Cases == JsonDeserialize(IOEnv.OBS_FILE)
@@ -47,6 +52,12 @@ Ok3 == C.out3 = "ok"
 Ok1 == C.out1 = "ok"
 Solved == Ok3 /\ Checked(Cfg)
 Sup == Supplied(Cfg)
+BusesC == Buses(Cfg)
+EgRows == 1..Len(Cfg.egs)
+EgOn == EgLive(Cfg)                                                      \* the in-service ext_grid rows
+Slacks == SlackBuses(Cfg)
+NodeReps == {n \in Sup : NodeOf(Cfg, n) = n}                              \* the supplied nodes
+SlackNodes == {n \in NodeReps : \E b \in Slacks : NodeOf(Cfg, b) = n}
 ElemIx == {k \in 1..N(Cfg) : El(Cfg, k).kind # "none"}
 AsymIx == {k \in ElemIx : El(Cfg, k).kind \in AsymKinds}
 SymIx == {k \in ElemIx : El(Cfg, k).kind \in SymKinds}
@@ -57,19 +68,19 @@ Micro(k, half, pq) == half * (Unit(El(Cfg, k).bus, pq) \div 2)        \* half le
 Wrap(x) == ((x + 180000000) % 360000000) - 180000000                  \* micro-degrees into [-180, 180)
 
 \* ---- harness sanity (a failure is a machinery failure, not a violation) ------------------------------------------------
-H_Shape == /\ Len(C.unitp) = 4 /\ Len(C.unitq) = 4
-           /\ \A b \in Bus : C.unitp[b] % 2 = 0 /\ C.unitq[b] % 2 = 0 /\ C.unitp[b] > 0 /\ C.unitq[b] > 0
+H_Shape == /\ Len(C.unitp) = NBus(Cfg) /\ Len(C.unitq) = NBus(Cfg)
+           /\ \A b \in BusesC : C.unitp[b] % 2 = 0 /\ C.unitq[b] % 2 = 0 /\ C.unitp[b] > 0 /\ C.unitq[b] > 0
            /\ C.out3 \in {"ok", "notconv", "notimpl", "error"} /\ C.out1 \in {"ok", "notconv", "error"}
-           /\ (Ok3 => Len(R3.bus) = 4 /\ Len(R3.line) = 3 /\ Len(R3.elem) = N(Cfg)
+           /\ (Ok3 => Len(R3.bus) = NBus(Cfg) /\ Len(R3.line) = 3 /\ Len(R3.elem) = N(Cfg) /\ Len(R3.eg) = Len(Cfg.egs)
                       /\ Len(R3.trafo) = (IF TopoTrafo(Cfg.topo) = "absent" THEN 0 ELSE 1))
-           /\ (Ok1 => Len(R1.bus) = 4 /\ Len(R1.line) = 3 /\ Len(R1.elem) = N(Cfg))
+           /\ (Ok1 => Len(R1.bus) = NBus(Cfg) /\ Len(R1.line) = 3 /\ Len(R1.elem) = N(Cfg) /\ Len(R1.eg) = Len(Cfg.egs))
 
 \* ---- bindings of the model's decision functions (a failure is a divergence: the model is wrong, or a finding outside C11)
 \* pd2ppc_zero.py:256: exactly the configurations with a transformer row of a "rejected" group raise NotImplementedError
 Div_Rejected == (C.out3 = "notimpl") <=> Rejects(Cfg)
 \* the buses with a voltage result are exactly the supplied ones (documented vector groups only: with an "open" group
 \* and unbalanced LV loading runpp_3ph returns converged = True with NaN everywhere -- counted by the harness)
-Div_Supplied == Solved => {b \in Bus : IsNum(R3.bus[b].vm[1])} = Sup
+Div_Supplied == Solved => {b \in BusesC : IsNum(R3.bus[b].vm[1])} = Sup
 Div_NoCrash == C.out3 # "error" /\ C.out1 # "error"
 
 \* ---- C11: a converged run reports numbers wherever the relations below read them ----------------------------------------
@@ -78,13 +89,13 @@ FinitePQ(r) == FiniteTriple(r.p) /\ FiniteTriple(r.q)
 Finite3 == /\ \A b \in Sup : FiniteTriple(R3.bus[b].vm) /\ FiniteTriple(R3.bus[b].va) /\ FinitePQ(R3.bus[b])
            /\ \A l \in LiveLines : FinitePQ(R3.line[l].f) /\ FinitePQ(R3.line[l].t)
            /\ \A k \in TrafoRows : FinitePQ(R3.trafo[k].hv) /\ FinitePQ(R3.trafo[k].lv)
-           /\ FinitePQ(R3.eg)
+           /\ \A k \in EgOn : FinitePQ(R3.eg[k])
            /\ \A k \in AsymIx : FinitePQ(R3.elem[k])
            /\ \A k \in SymIx : IsNum(R3.elem[k].pt) /\ IsNum(R3.elem[k].qt)
 Finite1 == /\ \A b \in Sup : IsNum(R1.bus[b].vm) /\ IsNum(R1.bus[b].va) /\ IsNum(R1.bus[b].p) /\ IsNum(R1.bus[b].q)
            /\ \A l \in LiveLines : \A pq \in PQ : IsNum(R1.line[l].f[pq]) /\ IsNum(R1.line[l].t[pq])
            /\ \A k \in TrafoRows : \A pq \in PQ : IsNum(R1.trafo[k].hv[pq]) /\ IsNum(R1.trafo[k].lv[pq])
-           /\ IsNum(R1.eg.p) /\ IsNum(R1.eg.q)
+           /\ \A k \in EgOn : IsNum(R1.eg[k].p) /\ IsNum(R1.eg[k].q)
            /\ \A k \in ElemIx : IsNum(R1.elem[k].pt) /\ IsNum(R1.elem[k].qt)
 C11_Finite == Solved => Finite3
 Num3 == Solved /\ Finite3
@@ -103,10 +114,11 @@ C11_BalancedThirdsLine == Bal => \A l \in LiveLines : \A pq \in PQ : \A ph \in P
      Third(R3.line[l].f[pq][ph], R1.line[l].f[pq]) /\ Third(R3.line[l].t[pq][ph], R1.line[l].t[pq])
 C11_BalancedThirdsTrafo == Bal => \A k \in TrafoRows : \A pq \in PQ : \A ph \in Ph :
      Third(R3.trafo[k].hv[pq][ph], R1.trafo[k].hv[pq]) /\ Third(R3.trafo[k].lv[pq][ph], R1.trafo[k].lv[pq])
-C11_BalancedThirdsExtGrid == Bal => \A pq \in PQ : \A ph \in Ph : Third(R3.eg[pq][ph], R1.eg[pq])
+\* every in-service ext_grid row: a third of the SAME row of the symmetric result
+C11_BalancedThirdsExtGrid == Bal => \A k \in EgOn : \A pq \in PQ : \A ph \in Ph : Third(R3.eg[k][pq][ph], R1.eg[k][pq])
 BusThirds(b) == \A pq \in PQ : \A ph \in Ph : Third(R3.bus[b][pq][ph], R1.bus[b][pq])
-C11_BalancedThirdsBus_Slack == Bal => BusThirds(SlackBus)
-C11_BalancedThirdsBus_Other == Bal => \A b \in Sup \ {SlackBus} : BusThirds(b)
+C11_BalancedThirdsBus_Slack == Bal => \A b \in Slacks : BusThirds(b)
+C11_BalancedThirdsBus_Other == Bal => \A b \in Sup \ Slacks : BusThirds(b)
 
 \* ---- C11, second sentence (every configuration): per-phase powers of each element, and their sum --------------------------
 \* results_bus.py:329-372 (asymmetric kinds) / :228-245 (load, sgen): table value * scaling * _is_elements
@@ -129,21 +141,23 @@ Elem3(k, ph, pq) == IF k \in AsymIx THEN 3 * Sign(El(Cfg, k)) * R3.elem[k][pq][p
                     ELSE Sign(El(Cfg, k)) * R3.elem[k][TotField(pq)]
 RECURSIVE SumFn(_, _)
 SumFn(f, S) == IF S = {} THEN 0 ELSE LET x == CHOOSE y \in S : TRUE IN f[x] + SumFn(f, S \ {x})
-ElemSum3(b, ph, pq) == SumFn([k \in ElemIx |-> Elem3(k, ph, pq)], {k \in ElemIx : El(Cfg, k).bus = b})
+ElemSum3(S, ph, pq) == SumFn([k \in ElemIx |-> Elem3(k, ph, pq)], {k \in ElemIx : El(Cfg, k).bus \in S})
 \* branch terminals: a line contributes its from-terminal to LineEnds[l][1] and its to-terminal to LineEnds[l][2], the
 \* transformer its hv terminal to TrafoHv and its lv terminal to TrafoLv; all terminal powers count INTO the branch
-LineTerm(l, b, ph, pq) == (IF LineEnds[l][1] = b THEN R3.line[l].f[pq][ph] ELSE 0) + (IF LineEnds[l][2] = b THEN R3.line[l].t[pq][ph] ELSE 0)
-TrafoTerm(k, b, ph, pq) == (IF b = TrafoHv THEN R3.trafo[k].hv[pq][ph] ELSE 0) + (IF b = TrafoLv THEN R3.trafo[k].lv[pq][ph] ELSE 0)
-Branch(b, ph, pq) == SumFn([l \in LiveLines |-> LineTerm(l, b, ph, pq)], LiveLines) + SumFn([k \in TrafoRows |-> TrafoTerm(k, b, ph, pq)], TrafoRows)
-EgTerm(b, ph, pq) == IF b = SlackBus THEN R3.eg[pq][ph] ELSE 0
-\* consumption of the elements - infeed of the ext_grid + flow into the branches = 0
-Bal3(b, ph, pq) == ElemSum3(b, ph, pq) - 3 * EgTerm(b, ph, pq) + 3 * Branch(b, ph, pq)
-NodalOK(b) == /\ PerPhase(Cfg, b) => \A pq \in PQ : \A ph \in Ph : Abs(Bal3(b, ph, pq)) <= 3 * NodalTol
-              /\ \A pq \in PQ : Abs(Bal3(b, 1, pq) + Bal3(b, 2, pq) + Bal3(b, 3, pq)) <= 9 * NodalTol
-C11_NodalBalance_Slack == Num3 => NodalOK(SlackBus)
-C11_NodalBalance_Other == Num3 => \A b \in Sup \ {SlackBus} : NodalOK(b)
-\* res_bus_3ph.p_<ph>_mw / q_<ph>_mvar is the bus's per-phase consumption minus infeed (results_bus.py:474-512,
-\* results_gen.py:72-79)
+LineTerm(l, S, ph, pq) == (IF LineEnds[l][1] \in S THEN R3.line[l].f[pq][ph] ELSE 0) + (IF LineEnds[l][2] \in S THEN R3.line[l].t[pq][ph] ELSE 0)
+TrafoTerm(k, S, ph, pq) == (IF TrafoHv \in S THEN R3.trafo[k].hv[pq][ph] ELSE 0) + (IF TrafoLv \in S THEN R3.trafo[k].lv[pq][ph] ELSE 0)
+Branch(S, ph, pq) == SumFn([l \in LiveLines |-> LineTerm(l, S, ph, pq)], LiveLines) + SumFn([k \in TrafoRows |-> TrafoTerm(k, S, ph, pq)], TrafoRows)
+\* infeed of the in-service ext_grid rows whose bus is in S
+EgTerm(S, ph, pq) == SumFn([k \in EgOn |-> R3.eg[k][pq][ph]], {k \in EgOn : Cfg.egs[k].bus \in S})
+\* node n = the set of buses fused into it:  consumption of the elements - infeed of the ext_grids + flow into the branches = 0
+BusesOf(n) == {b \in BusesC : NodeOf(Cfg, b) = n}
+Bal3(n, ph, pq) == LET S == BusesOf(n) IN ElemSum3(S, ph, pq) - 3 * EgTerm(S, ph, pq) + 3 * Branch(S, ph, pq)
+NodalOK(n) == /\ PerPhase(Cfg, n) => \A pq \in PQ : \A ph \in Ph : Abs(Bal3(n, ph, pq)) <= 3 * NodalTol
+              /\ \A pq \in PQ : Abs(Bal3(n, 1, pq) + Bal3(n, 2, pq) + Bal3(n, 3, pq)) <= 9 * NodalTol
+C11_NodalBalance_Slack == Num3 => \A n \in SlackNodes : NodalOK(n)
+C11_NodalBalance_Other == Num3 => \A n \in NodeReps \ SlackNodes : NodalOK(n)
+\* res_bus_3ph.p_<ph>_mw / q_<ph>_mvar is the (pandapower) bus's own per-phase consumption minus infeed
+\* (results_bus.py:474-512, results_gen.py:72-79)
 C11_BusInjection == Num3 => \A b \in Sup : \A pq \in PQ : \A ph \in Ph :
-                               Abs(3 * R3.bus[b][pq][ph] - (ElemSum3(b, ph, pq) - 3 * EgTerm(b, ph, pq))) <= 3 * CopyTol + 3
+                               Abs(3 * R3.bus[b][pq][ph] - (ElemSum3({b}, ph, pq) - 3 * EgTerm({b}, ph, pq))) <= 3 * CopyTol + 3
 =============================================================================
